@@ -24,7 +24,7 @@ func init() {
 		QuickRuns:    8000,
 		ThoroughRuns: 250000,
 		RaceDivisor:  8,
-		RaceScope:    []string{"imapclient.", "imapwire."}, // server-side races are C14's business
+		RaceScope:    []string{"imapclient.", "imapwire.", "utf7.", "internal."}, // server-side races are C14's business
 		Run:          runC13,
 	})
 }
